@@ -8,6 +8,8 @@
 -/
 import Fca.Lemmas.SemiLatticeHist
 import Fca.Lemmas.PosetStep2
+import Fca.Lemmas.SemiLatticeDic
+import Fca.Lemmas.SemiLatticePatch
 set_option linter.unusedSectionVars false
 set_option linter.unusedVariables false
 namespace Fca.SemiLattice
@@ -74,6 +76,148 @@ theorem traceElementSL_spec (hpo : IdxPO leq E) (hord : ∀ l, (ord l).Perm l) {
     obtain ⟨p2, r, hl2, hb, h2⟩ := lift_sat (s := s)
       (traceFrom_spec hpo hord hD h1 (extremes_of_isExt hpo ht).symm)
     exact ⟨p2, r, hl2, hb, h2⟩
+
+/-- the same without any presence assumption (and without the promise the scan would add), transporting an
+    arbitrary invariant `I` of the poset state that the scan and the trace keep -/
+theorem traceElementSL_specW (hpo : IdxPO leq E) (hord : ∀ l, (ord l).Perm l) {d : Dir} {e : α}
+    (hD : DownSet leq d E (cmpB leq d e E)) {G : Ghost} {s : SL α} (h : InvB leq E G true s.p)
+    (hext : s.cls.has d = true → ∃ t, isExt leq d E t = true ∧ s.cache d = some t)
+    (I : St α → Prop) (hIe : Keeps I (extremesE leq d)) (hIt : ∀ st, Keeps I (traceFrom leq ord d e st))
+    (hI : I s.p) :
+    ∃ p' r, traceElementSL leq ord d e s = ({ s with p := p' }, .ok r) ∧
+      BInv leq d E (cmpB leq d e E) [] r.2 r.1 ∧
+      InvB leq E (G.addDirectP d.flip (fun k => k ∈ r.2)) true p' ∧ I p' := by
+  unfold traceElementSL
+  cases hd : s.cls.has d
+  · have hx : extremesSL leq d s = ML.lift (extremesE leq d) s := by
+      unfold extremesSL
+      rw [bind_ok (get_apply s)]
+      simp only [hd, Bool.false_eq_true, ↓reduceIte]
+    obtain ⟨p1, st, hm1, h1, hst⟩ := extremesE_spec' hpo h d
+    have hl : ML.lift (extremesE leq d) s = ({ s with p := p1 }, .ok st) := by rw [lift_apply, hm1]
+    have hI1 : I p1 := by have := hIe.state hI; rw [hm1] at this; exact this
+    rw [← hx] at hl
+    rw [bind_ok hl]
+    obtain ⟨p2, r, hm2, hb, h2⟩ := traceFrom_spec (ord := ord) hpo hord hD h1.dropClosedP hst
+    have hl2 : ML.lift (traceFrom leq ord d e st) ({ s with p := p1 } : SL α) = ({ s with p := p2 }, .ok r) := by
+      rw [lift_apply, hm2]
+    have hI2 : I p2 := by have := (hIt st).state hI1; rw [hm2] at this; exact this
+    exact ⟨p2, r, hl2, hb, h2, hI2⟩
+  · obtain ⟨t, ht, hc⟩ := hext hd
+    have hpo' : IdxPO leq s.p.elems := by rw [h.elems]; exact hpo
+    have hx := extremesSL_run (s := s) hpo' hd (by rw [h.elems]; exact ht) (fun _ => hc)
+    rw [bind_ok hx]
+    obtain ⟨p2, r, hm2, hb, h2⟩ := traceFrom_spec (ord := ord) hpo hord hD h (extremes_of_isExt hpo ht).symm
+    have hl2 : ML.lift (traceFrom leq ord d e [t]) s = ({ s with p := p2 }, .ok r) := by
+      rw [lift_apply, hm2]
+    have hI2 : I p2 := by have := (hIt [t]).state hI; rw [hm2] at this; exact this
+    exact ⟨p2, r, hl2, hb, h2, hI2⟩
+
+theorem keeps_traceFrom (n x : Nat) (d : Dir) (e : α) (st : List Nat) :
+    Keeps (DIC n x) (traceFrom leq ord d e st) := by
+  unfold traceFrom
+  exact keeps_get_bind fun s => tr_bind (tr_ofExcept _ (fun _ _ _ h => h) (fun _ h => h)) fun tv =>
+    keeps_traceLoop n x _ _ _ _ _ _
+
+/-- the `if fill_up_cache:` block of `POSet.add` on a caching semilattice, from the cache invariant and `DIC` only
+    (no presence of closed entries is assumed: the traced elements get theirs from the trace itself) -/
+theorem posetAddFillSL_specW {e : α} (hpo : IdxPO leq E) (hpo' : IdxPO leq (E ++ [e]))
+    (hord : ∀ l, (ord l).Perm l) {s : SL α} (h : InvB leq E Ghost.none true s.p)
+    (hext : ∀ d, s.cls.has d = true → ∃ t, isExt leq d E t = true ∧ s.cache d = some t)
+    (hdic : DIC E.length E.length s.p) :
+    ∃ p6 cl dr, posetAddFillSL leq ord e E.length s = ({ s with p := p6 }, .ok ()) ∧
+      Weak.PatchInv leq E e cl dr (List.range E.length) p6 ∧ DIC E.length E.length p6 := by
+  have hnn : ¬(E.length < E.length ∧ E.length < E.length) := fun hh => Nat.lt_irrefl _ hh.1
+  have hn : ¬ E.length < E.length := Nat.lt_irrefl _
+  have h1 := h.insertLeqOut true hnn
+  have d1 : DIC E.length E.length ({ s.p with leqC := ainsert (E.length, E.length) true s.p.leqC } : St α) :=
+    dic_of_same_direct hdic (fun d k h => by cases d <;> exact h) (fun d k h => by cases d <;> exact h)
+  -- trace up
+  obtain ⟨p2, ⟨ch, de⟩, e2, hb1, h2, d2⟩ := traceElementSL_specW (ord := ord) hpo hord (downSet_cmpB hpo' .desc)
+    (s := { s with p := { s.p with leqC := ainsert (E.length, E.length) true s.p.leqC } }) h1
+    (hext .desc) (DIC E.length E.length) (keeps_extremesE _ _ _) (keeps_traceFrom _ _ _ _) d1
+  obtain ⟨hde, hch⟩ := trace_result hpo' hpo hb1
+  simp only at h2 hde hch
+  have h3 := (h2.insertDirectOut .desc ch hn).insertClosedOut .desc de hn
+  have d3 : DIC E.length E.length ((p2.setDirect .desc (ainsert E.length ch (p2.direct .desc))).setClosed .desc (ainsert E.length de ((p2.setDirect .desc (ainsert E.length ch (p2.direct .desc))).closed .desc))) :=
+    dic_insertClosed (dic_setDirect_insert' d2 _ _ _ (fun hlt => absurd hlt hn)) _ _ _
+  -- trace down
+  obtain ⟨p4, ⟨pa, an⟩, e5, hb2, h4, d4⟩ := traceElementSL_specW (ord := ord) hpo hord (downSet_cmpB hpo' .anc)
+    (s := { s with p := ((p2.setDirect .desc (ainsert E.length ch (p2.direct .desc))).setClosed .desc (ainsert E.length de ((p2.setDirect .desc (ainsert E.length ch (p2.direct .desc))).closed .desc))) }) h3
+    (hext .anc) (DIC E.length E.length) (keeps_extremesE _ _ _) (keeps_traceFrom _ _ _ _) d3
+  obtain ⟨han, hpa⟩ := trace_result hpo' hpo hb2
+  simp only at h4 han hpa
+  have h5 := (h4.insertDirectOut .anc pa hn).insertClosedOut .anc an hn
+  have d5 : DIC E.length E.length ((p4.setDirect .anc (ainsert E.length pa (p4.direct .anc))).setClosed .anc (ainsert E.length an ((p4.setDirect .anc (ainsert E.length pa (p4.direct .anc))).closed .anc))) :=
+    dic_insertClosed (dic_setDirect_insert' d4 _ _ _ (fun hlt => absurd hlt hn)) _ _ _
+  -- the closed entries of the traced elements are present: their direct entries are (the trace left them), and `DIC`
+  have hlt : ∀ d k, ltD leq d (E ++ [e]) k E.length = true → k < E.length := by
+    intro d k hk
+    have h1 := (ltD_lt hk).1
+    have h2 := (ltD_iff.mp hk).2
+    simp only [List.length_append, List.length_singleton] at h1
+    omega
+  have h6 := (h5.addClosedP .anc (fun k => k ∈ de) (fun hct k hk => by
+      have hp := h5.directPres hct .anc k (by
+        simp only [Ghost.setClosedX, Ghost.setDirectX, Ghost.addDirectP, Ghost.setLeqX, Ghost.none]
+        exact Or.inl (Or.inr ⟨rfl, hk⟩))
+      exact d5 .anc k (hlt .desc k ((hde.2 k).mp hk)) (by have := hlt .desc k ((hde.2 k).mp hk); omega) hp)).addClosedP
+    .desc (fun k => k ∈ an) (fun hct k hk => by
+      have hp := h5.directPres hct .desc k (by
+        simp only [Ghost.setClosedX, Ghost.setDirectX, Ghost.addDirectP, Ghost.setLeqX, Ghost.none]
+        exact Or.inr ⟨rfl, hk⟩)
+      exact d5 .desc k (hlt .anc k ((han.2 k).mp hk)) (by have := hlt .anc k ((han.2 k).mp hk); omega) hp)
+  have hcl : ∀ d, (Dir.casesOn (motive := fun _ => List Nat) d de an).Nodup ∧
+      ∀ x, x ∈ (Dir.casesOn (motive := fun _ => List Nat) d de an) ↔
+        ltD leq d (E ++ [e]) x E.length = true := by
+    intro d; cases d
+    · exact hde
+    · exact han
+  have hdr : ∀ d, (Dir.casesOn (motive := fun _ => List Nat) d ch pa).Nodup ∧
+      ∀ x, x ∈ (Dir.casesOn (motive := fun _ => List Nat) d ch pa) ↔
+        isCover leq d (E ++ [e]) x E.length = true := by
+    intro d; cases d
+    · exact hch
+    · exact hpa
+  have hP := Weak.patchInv_init (cl := fun d => Dir.casesOn (motive := fun _ => List Nat) d de an)
+    (dr := fun d => Dir.casesOn (motive := fun _ => List Nat) d ch pa) hpo' h6 hcl hdr
+    (by
+      intro p
+      simp only [Ghost.setClosedX, Ghost.setDirectX, Ghost.addClosedP, Ghost.addDirectP, Ghost.setLeqX,
+        Ghost.none])
+    (by
+      intro d k
+      simp only [Ghost.setClosedX, Ghost.setDirectX, Ghost.addClosedP, Ghost.addDirectP, Ghost.setLeqX,
+        Ghost.none]
+      cases d <;> by_cases hk : k = E.length <;> simp [hk])
+    (by
+      intro d k
+      simp only [Ghost.setClosedX, Ghost.setDirectX, Ghost.addClosedP, Ghost.addDirectP, Ghost.setLeqX,
+        Ghost.none]
+      cases d <;> by_cases hk : k = E.length <;> simp [hk])
+    (by
+      intro d k hk
+      simp only [Ghost.setClosedX, Ghost.setDirectX, Ghost.addClosedP, Ghost.addDirectP, Ghost.setLeqX,
+        Ghost.none]
+      cases d <;> simp [Dir.flip] <;> exact hk)
+    (by
+      intro d k hk
+      simp only [Ghost.setClosedX, Ghost.setDirectX, Ghost.addClosedP, Ghost.addDirectP, Ghost.setLeqX,
+        Ghost.none]
+      cases d <;> simp [Dir.flip] <;> exact hk)
+  obtain ⟨p6, u, hm8, h6'⟩ := Weak.addPatchLoop_spec hpo' hcl hdr hP
+  have e8 : ML.lift (M.forM (addPatch E.length) (List.range E.length))
+      ({ s with p := ((p4.setDirect .anc (ainsert E.length pa (p4.direct .anc))).setClosed .anc (ainsert E.length an ((p4.setDirect .anc (ainsert E.length pa (p4.direct .anc))).closed .anc))) } : SL α)
+      = ({ s with p := p6 }, .ok u) := by rw [lift_apply, hm8]
+  have d6 : DIC E.length E.length p6 := by
+    have := (keeps_forM (I := DIC E.length E.length) (f := addPatch (α := α) E.length)
+      (fun i => keeps_addPatch _ _ E.length i) (List.range E.length)).state d5
+    rw [hm8] at this; exact this
+  refine ⟨p6, _, _, ?_, h6', d6⟩
+  unfold posetAddFillSL
+  exact (bind_ok (lift_modify _ s)).trans <| (bind_ok e2).trans <| (bind_ok (lift_modify _ _)).trans <|
+    (bind_ok (lift_modify _ _)).trans <| (bind_ok e5).trans <| (bind_ok (lift_modify _ _)).trans <|
+    (bind_ok (lift_modify _ _)).trans e8
 
 /-- on a caching instance, every side the class overrides has the closed relation of every element cached -/
 def Complete (s : SL α) : Prop :=
